@@ -912,6 +912,58 @@ def r4_delimiter(run):
         _r4(run, tag, f, reader)
 
 
+# ---------------------------------------------------------------------------
+# R8 parse_header: the naive ';' split is used only for lines without quotes
+# ---------------------------------------------------------------------------
+
+def r8_parse_header_fast_path(run):
+    """Part names and file names come from Content-Disposition parameters,
+    which may be quoted strings containing ';' (filename="a;b.txt").  The fast
+    path of parse_header splits the line on every ';'; it is only correct when
+    the line has no quoted string, i.e. it must be guarded by a test that the
+    line contains no '"'.  W: filename="backup;2024.tar.gz" -> '"backup'."""
+    p = run.project
+    f = p.func('falcon.util.mediatypes.parse_header')
+    cfg = cfg_of(f, p)
+    run.use_cfg(cfg)
+    param = f.params()[0]
+    # names derived from the parameter by split/partition (the pieces)
+    naive = []
+    for n in cfg.live_nodes():
+        for c in n.calls():
+            if isinstance(c.func, ast.Attribute) and c.func.attr in ('split', 'partition', 'rsplit') and c.args \
+                    and isinstance(c.args[0], ast.Constant) and c.args[0].value == ';':
+                naive.append((n, c))
+    if not naive:
+        raise AnchorError('parse_header: no split/partition on ";" (fast path) found')
+
+    def no_quote(e):
+        return (isinstance(e, ast.Compare) and len(e.ops) == 1 and isinstance(e.ops[0], ast.NotIn)
+                and isinstance(e.left, ast.Constant) and e.left.value == '"' and isinstance(e.comparators[0], ast.Name)
+                and e.comparators[0].id == param)
+
+    def has_quote(e):
+        return (isinstance(e, ast.Compare) and len(e.ops) == 1 and isinstance(e.ops[0], ast.In)
+                and isinstance(e.left, ast.Constant) and e.left.value == '"' and isinstance(e.comparators[0], ast.Name)
+                and e.comparators[0].id == param)
+
+    safe_edges = []
+    for t in cfg.live_nodes():
+        if t.kind != 'test':
+            continue
+        for (y, l) in cfg.succ[t.id]:
+            if l not in ('T', 'F'):
+                continue
+            r1 = implied(t.ast, l == 'T', no_quote)
+            r2 = implied(t.ast, l == 'T', has_quote)
+            if r1 is True or r2 is False:
+                safe_edges.append((t.id, y, l))
+    for (n, c) in naive:
+        ok = any(flow.dominated_by_edge(cfg, n.id, e) for e in safe_edges)
+        run.check(ok, 'parse_header splits on every ";" only on a path where the line is known to contain no double quote', f, c,
+                  where=f.loc(c), runtime_witness='Content-Disposition: form-data; name="f"; filename="backup;2024-01-01.tar.gz" -> filename \'"backup\'')
+
+
 def check(run):
     run.assume('reader semantics (C14) are taken as given: read_until(d, n, consume_delimiter=True) returns at most n bytes and '
                'raises DelimiterError unless d follows; pipe_until(d, consume_delimiter=True) skips to and over d')
@@ -922,5 +974,7 @@ def check(run):
     # the header-block limit is enforced through read_until(CRLF+CRLF, max_headers_size): it holds independently of the
     # transport's chunking only if that size-capped read never hands out the first bytes of a delimiter (C14 R7)
     from . import c14 as _c14
+    run.rule('R7', _c14.r6_search_start, 'delimiter searches never look at consumed bytes (shared with C14 R6)', floor=6)
+    run.rule('R8', r8_parse_header_fast_path, 'parse_header splits on ";" only when the line has no quoted string', floor=1)
     run.rule('R5', _c14.r7_delimiter_not_split, 'header-size-capped read never splits a delimiter (shared with C14)', floor=1)
     run.rule('R6', _c14.r10_sync_delimiter_not_split, 'sync reader: a bounded read that stops refilling never hands out the head of a straddling delimiter (shared with C14)', floor=1)
